@@ -89,6 +89,35 @@ impl<T> Slab<T> {
     pub fn remove(&mut self, key: usize) -> T {
         self.try_remove(key).expect("invalid key")
     }
+    /// keeps the entries for which `f` returns true, visiting them in key order (as the real slab does); a removed
+    /// key goes onto the free list like any other removal
+    pub fn retain<F>(&mut self, mut f: F)
+    where
+        F: FnMut(usize, &mut T) -> bool,
+    {
+        let mut key = 0;
+        while key < CAP {
+            let keep = match self.entries[key].as_mut() {
+                Some(v) => f(key, v),
+                None => true,
+            };
+            if !keep {
+                let _ = self.try_remove(key);
+            }
+            key += 1;
+        }
+    }
+    pub fn clear(&mut self) {
+        *self = Slab::new();
+    }
+    pub fn vacant_key(&self) -> usize {
+        if self.nfree > 0 {
+            self.free[self.nfree - 1]
+        } else {
+            self.hw
+        }
+    }
+    pub fn shrink_to_fit(&mut self) {}
     pub fn iter(&self) -> Iter<'_, T> {
         Iter { slab: self, front: 0, back: CAP }
     }
